@@ -23,6 +23,8 @@ structure H where
   got : Nat
   lost : List Nat
   failAt : Nat
+  dialFail : Nat
+  abortAt : Nat
   cut : Option Nat
   qs : Array Q
 
@@ -79,9 +81,20 @@ def mkCfg (sync : Bool) (qs : List Q) : Cfg Nat :=
       { major := q.major, minor := q.minor, connVals := q.conn, pieces := [[2 * i], [2 * i + 1]] },
     sync }
 
-/-- the server side of one connection under the schedule of the K line, then drained -/
+/-- the server side of one connection: `Pipeline.run` on the schedule of the K line followed by
+    `completion`; the state is used only if the three checks of `Pipeline.c10_run_checked` hold for this
+    very run (otherwise the driver answers `model-unchecked`, which never matches the implementation) -/
+def serve? (sync : Bool) (sched : List Act) (qs : List Q) : Option (St Nat) :=
+  let cfg := mkCfg sync qs
+  let acts := sched ++ completion (4 * qs.length + 8)
+  let s := run cfg init acts
+  if noExt acts && doneB cfg s && !s.dropped then some s else none
+
+/-- a state nothing matches: used when the checks fail -/
+def unchecked : St Nat := { (init : St Nat) with wire := [1000000007] }
+
 def serve (sync : Bool) (sched : List Act) (qs : List Q) : St Nat :=
-  drain (mkCfg sync qs) (6 * qs.length + 8) init sched
+  (serve? sync sched qs).getD unchecked
 
 /-- the schedule of the known finding "close drops the backlog": from response `i` on the kernel stops
     taking bytes (the tail part of response i and everything behind it is queued); the job of the first
@@ -108,10 +121,21 @@ def splitAtClose (qs : List Q) : List (List Q) :=
       else go rest (q :: cur)
   go qs []
 
-def outcome (sync : Bool) (h : H) : List String :=
+def outcome0 (sync : Bool) (h : H) : List String :=
   let qs := h.qs.toList
   match h.kind with
   | "raw" =>
+    -- a client that aborts behind request k (abort = k+1) observes the exchanges in front of it only: the
+    -- connection it leaves is an external close for the server (`c10_wire_prefix`, `c10_nothing_after_close`)
+    let qs := if h.abortAt > 0 then qs.take (h.abortAt - 1) else qs
+    let lines := fun (s : St Nat) => qs.mapIdx fun i q =>
+      if answeredIn s i then
+        answeredLine h.cid q (if 2 * (i + 1) == s.wire.length && s.closed then "1" else "0") "x"
+      else if partialIn s i && s.dropped then s!"R {q.rid} bad=truncated cb=x"
+      else s!"R {q.rid} none cb=x"
+    if h.abortAt > 0 then
+      lines (serve sync h.sched qs) ++ (h.qs.toList.drop (h.abortAt - 1)).map fun q => s!"R {q.rid} none cb=x"
+    else
     let s := match h.cut with
       | some i => serveCut sync i qs
       | none => serve sync h.sched qs
@@ -121,17 +145,22 @@ def outcome (sync : Bool) (h : H) : List String :=
       else if partialIn s i && s.dropped then s!"R {q.rid} bad=truncated cb=x"
       else s!"R {q.rid} none cb=x"
   | "nbc" =>
-    let s := serve sync h.sched qs
+    -- the first `dialFail` Do calls fail to dial (no connection, `closeWithErrorWithoutLock`); the server
+    -- sees the history from the first request that got a connection
+    let k := min h.dialFail qs.length
+    let s := serve sync h.sched (qs.drop k)
     let m := answeredCount s
-    -- the client: n pipelined Do, the responses its parser delivered (environment input `got`, at most
-    -- what the server sent), then the close (server's or the harness's ClientConn.Close)
+    -- the client: the Do calls in order, the responses its parser delivered (environment input `got`, at
+    -- most what the server sent), then the close (server's or the harness's ClientConn.Close)
     let got := min h.got m
     let ops : List ClientFifo.Op :=
-      qs.map (fun _ => ClientFifo.Op.do_ true true) ++ (List.replicate got (ClientFifo.Op.onResponse 0 false)) ++ [.closeAll]
+      List.replicate k (ClientFifo.Op.do_ false true) ++
+      List.replicate (qs.length - k) (ClientFifo.Op.do_ true true) ++
+      (List.replicate got (ClientFifo.Op.onResponse 0 false)) ++ [.closeAll]
     let c := ClientFifo.run {} ops
     qs.mapIdx fun i q =>
       let cnt := ClientFifo.count c i
-      if c.calls.contains (i, ClientFifo.Out.resp (some i)) && answeredIn s i then
+      if c.calls.contains (i, ClientFifo.Out.resp (some i)) && i ≥ k && answeredIn s (i - k) then
         answeredLine h.cid q "x" (toString cnt)
       else s!"R {q.rid} none cb={cnt}"
   | "nbx" =>
@@ -154,13 +183,31 @@ def outcome (sync : Bool) (h : H) : List String :=
       else s!"R {q.rid} none cb={cnt}"
   | "std" | "nbcli" =>
     let cb := if h.kind == "nbcli" then "1" else "x"
-    (splitAtClose qs).flatMap fun seg =>
+    -- pool client with failing dials: one exchange at a time, the first `dialFail` get the dial error
+    let k := min h.dialFail qs.length
+    ((qs.take k).map fun q => s!"R {q.rid} none cb={cb}") ++
+    (splitAtClose (qs.drop k)).flatMap fun seg =>
       let s := serve sync h.sched seg
       seg.mapIdx fun i q =>
         -- pool client: one exchange per Do; a callback that got an error is an environment input (`lost=`)
         if answeredIn s i && !h.lost.contains q.rid then answeredLine h.cid q "x" cb
         else s!"R {q.rid} none cb={cb}"
   | _ => qs.map fun _ => "bad-op"
+
+/-- every server run behind the lines must have passed the checks of `c10_run_checked` -/
+def allChecked (sync : Bool) (h : H) : Bool :=
+  let qs := h.qs.toList
+  match h.kind with
+  | "raw" => h.cut.isSome ||
+      (serve? sync h.sched (if h.abortAt > 0 then qs.take (h.abortAt - 1) else qs)).isSome
+  | "nbc" => (serve? sync h.sched (qs.drop (min h.dialFail qs.length))).isSome
+  | "nbx" => (serve? sync h.sched (qs.drop (min h.failAt qs.length + 1))).isSome
+  | "std" | "nbcli" =>
+    (splitAtClose (qs.drop (min h.dialFail qs.length))).all fun seg => (serve? sync h.sched seg).isSome
+  | _ => true
+
+def outcome (sync : Bool) (h : H) : List String :=
+  if allChecked sync h then outcome0 sync h else h.qs.toList.map fun _ => "model-unchecked"
 
 def parseVer (v : String) : Option (Nat × Nat) :=
   match v with
@@ -219,8 +266,10 @@ partial def loop (h : IO.FS.Stream) (s : DS) : IO Unit := do
         let lost := (((Drv.field ws "lost").getD "").splitOn ",").filterMap String.toNat?
         let failAt := ((Drv.field ws "fail").bind String.toNat?).getD 0
         let cut := (Drv.field ws "cut").bind String.toNat?
+        let dialFail := ((Drv.field ws "dialfail").bind String.toNat?).getD 0
+        let abortAt := ((Drv.field ws "abort").bind String.toNat?).getD 0
         IO.println "ok"
-        loop h { s with cur := some { cid, kind, sched, got, lost, failAt, cut, qs := #[] } }
+        loop h { s with cur := some { cid, kind, sched, got, lost, failAt, dialFail, abortAt, cut, qs := #[] } }
       else
         IO.println "bad-op"
         loop h s
